@@ -95,9 +95,10 @@ def check_sort_to_match(ctx):
     for attr, base, dims in (('_model_names', sym('names', M), (M,)), ('_flux', sym('flux', M, A), (M, A)), ('_error', sym('err', M, A), (M, A))):
         compare(ctx, 'PERM-3', 'sort_to_match: %s' % attr.lstrip('_'), loc(st), me.attrs.get(attr), mk_fn('at', B(M, base), P(order)), dims, vocab=VOCAB, fns=FNS, findings=I.findings,
                 detail_ok='%s[order] on the model axis, order = order_to_match(names, strip(requested))' % attr.lstrip('_'))
-    guards = [a for a in I.assumed if a[4] == 'raise-guard']
-    okg = any('model_names' in g[2] and 'requested' in g[2] and '==' in g[2] for g in guards)
-    ctx.expect(okg, 'CFG-6', 'sort_to_match post-check', loc(st), 'raises when names[order] != requested names', 'no raising check that the re-ordered names match the request (guards: %s)' % [g[2] for g in guards], 'post-check')
+    from ..fitmodel import guard_requires
+    sorted_names = mk_fn('at', B(M, sym('names', M)), P(order))
+    okg, seen = guard_requires(I, [mk_fn('all', B(M, alg.eq(sorted_names, r_))) for r_ in (req, sym('req', M))])
+    ctx.expect(okg, 'CFG-6', 'sort_to_match post-check', loc(st), 'raises unless names[order] equal the requested names, element by element', 'no raising check that the re-ordered names match the request (guards: %s)' % seen, 'post-check')
 
 
 def check_shared_buffers(ctx):
